@@ -122,6 +122,22 @@ def run_fct(case, ctx):
     ctx.check(X1 is X and X2 is X and numpy.array_equal(X, Xk), "C13/fct/X-touched",
               "features not returned untouched", cfg=cfg)
     ctx.check(y2.shape == y.shape, "C13/fct/shape", "shape %r -> %r" % (y.shape, y2.shape), cfg=cfg)
+    # the hyper-parameter is changed WITHOUT a refit: transform and the transformer returned by get_fct_inv still form
+    # a pair (whichever function of the two they apply, one undoes the other)
+    other_name = [nm for nm in F if nm != name and F[nm][2] == kind]
+    if other_name and not tiny:
+        try:
+            t.set_params(fct=other_name[case["sub"] % len(other_name)])
+            _, yh1 = t.transform(X, y)
+            _, yh2 = t.get_fct_inv().transform(X, yh1)
+            ctx.hit("fct.roundtrip.after_set_params_without_refit")
+            ok_h = numpy.allclose(numpy.asarray(yh2)[~nan_in], y[~nan_in], rtol=1e-9, atol=1e-12 * mag)
+            ctx.check(ok_h, "C13/fct/roundtrip/after-set_params-without-refit", "fit(%r), set_params(fct=%r) without a refit: "
+                      "transform followed by get_fct_inv().transform does not give the targets back" % (
+                          name, t.get_params()["fct"]), cfg=cfg)
+            t.set_params(fct=name)
+        except Exception as e:
+            ctx.violation("C13/fct/raised/%s/after-set_params-without-refit" % type(e).__name__, str(e)[:120], cfg=cfg)
     # y None
     Xn, yn = t.transform(X, None)
     ctx.check(Xn is X and yn is None, "C13/fct/y-none", "transform(X, None) must return (X, None)", cfg=cfg)
@@ -143,6 +159,8 @@ LABELSETS = [
     ("str-U", lambda k: numpy.array(["u", "v", "w", "x", "y", "z"][:k])),
     ("str-object", lambda k: numpy.array(["bb", "a", "cc", "dd", "e", "ff"][:k], dtype=object)),
     ("str-unequal-length", lambda k: numpy.array(["no", "yes", "perhaps", "a", "absolutely", "x"][:k])),
+    # identifiers that need 64 bits next to small ones
+    ("int-wide", lambda k: numpy.array([3000000000, -3000000000, 7, 2 ** 40, 0, 5][:k], dtype=numpy.int64)),
 ]
 
 
@@ -183,6 +201,22 @@ def run_perm(case, ctx):
                 same = len(y2) == len(y) and all(a == b for a, b in zip(y2.tolist(), y.tolist()))
             ctx.check(same, "C13/perm/label-roundtrip", "inverse permutation does not restore the labels",
                       cfg=cfg, y=y[:6], permuted=y1[:6], back=y2[:6])
+            # the codes held in a narrower integer type (they are 0..k-1: int8 is enough for them) come back as the labels,
+            # whatever width the labels need
+            if y.dtype.kind in "iu":
+                for dtn in ("int8", "int16", "int32", "uint8"):
+                    try:
+                        _, yb_ = inv.transform(None, numpy.asarray(y1).astype(dtn))
+                        ctx.hit("perm.roundtrip.narrow_codes")
+                        if len(yb_) != len(y) or not all(int(a) == int(b) for a, b in zip(numpy.asarray(yb_).tolist(), y.tolist())):
+                            ctx.violation("C13/perm/label-roundtrip/codes-held-as-%s" % dtn, "codes stored as %s are not mapped "
+                                          "back to the labels: %r instead of %r" % (
+                                              dtn, numpy.asarray(yb_)[:4].tolist(), y[:4].tolist()), cfg=cfg)
+                            break
+                    except Exception as e:
+                        ctx.violation("C13/perm/raised/%s/codes-held-as-%s/%s" % (lname, dtn, type(e).__name__), str(e)[:120],
+                                      cfg=cfg)
+                        break
             # the inverse is a reciprocal transformer with a fitted permutation too: ITS reciprocal undoes it
             # (codes -> labels -> codes)
             try:
